@@ -83,6 +83,10 @@ CHECKS = {
    technique="TLC enumerates the conversion table and call-shape table of AnkoCall.tla over signatures x argument tuples x call shapes (tables checked total); replay against host functions built with reflect.MakeFunc comparing the arguments actually received; scenario checks for round trips, members, methods, results and callbacks",
    text="Which argument feeds which parameter, whether the call is delivered or rejected, and how each value is converted (identity, Go conversion, zero value, element-wise, callback adapter, error) are decided by the TLA+ tables for every combination of the bounded pools and compared with what a reflect-built host function of that very signature receives; identity round trips, field access through values and pointers, value/pointer-receiver methods, variadic and spread delivery, multiple results and callback conversion/error surfacing are checked on concrete host values.",
    note="Trusted: reflect.Convert as Go's own conversion; TLC. Bounds: 15 parameter types, 15 argument kinds, one- and two-parameter and variadic signatures, ~8.5k cases, 50 scenarios."),
+ "C19": dict(level="model_checking", design="5 (C19), 3.9",
+   technique="TLC computes range progressions with the Int64 limb arithmetic and the toInt/toFloat dispatch (AnkoBuiltins.tla) for enumerated argument tuples; replay in a memory-limited watchdogged worker; native-Go oracles for the remaining builtins; TLC validation of the reflected package tables against EntryOK",
+   text="range is specified as the int64 progression strictly before stop and computed bit-exactly in TLA+ for all small triples and for extreme triples at the int64 edges (where the implementation must stop instead of wrapping); conversions are dispatched in TLA+ to exact values or named Go primitives. The remaining builtins are compared with the same computation done natively in Go over a value universe, including misuse; all 595 package-table entries are reflected (runtime symbol / type identity) and validated against the rule that an entry is the Go function or type it is listed under.",
+   note="Level model_checking for range and the conversion dispatch; the native-oracle part and the table audit are stateless comparisons (level 'other' in spirit) and are declared as such in the evidence assumptions. Trusted: strconv, fmt, reflect, runtime.FuncForPC. Two table entries are allow-listed with reasons."),
 # <<ADD>>
 }
 
